@@ -2,12 +2,15 @@
 # usage: tools_seed_matrix.sh — applies each seeded change to /repo in turn, runs its property's check, reverts; prints which rules fire
 cd /verif
 DIR=${1:-seeded}
+# MX_REPO=<scratch worktree of /repo> runs the matrix there (VERIF_REPO) and leaves /repo alone
+REPO=${MX_REPO:-/repo}
+[ -n "$MX_REPO" ] && export VERIF_REPO=$MX_REPO
 for id in $(ls $DIR | grep "^C[0-9][0-9]$"); do
-  if ! git -C /repo apply --check /verif/$DIR/$id/patch.diff 2>/dev/null; then echo "$id PATCH-DOES-NOT-APPLY"; continue; fi
-  git -C /repo apply /verif/$DIR/$id/patch.diff
+  if ! git -C $REPO apply --check /verif/$DIR/$id/patch.diff 2>/dev/null; then echo "$id PATCH-DOES-NOT-APPLY"; continue; fi
+  git -C $REPO apply /verif/$DIR/$id/patch.diff
   out=$(./check $id 2>&1); rc=$?
-  git -C /repo checkout -- .
+  git -C $REPO checkout -- .
   rules=$(echo "$out" | grep -v "^VIOLATION\|^KNOWN\|^note\|^ANALYSIS" | grep -o "\[C[0-9a-z]*\.[a-z0-9-]*" | sort | uniq -c | tr '\n' ' ')
   echo "$id exit=$rc violations=$(echo "$out" | grep -c '^VIOLATION') incomplete=$(echo "$out" | grep -c '^ANALYSIS') rules: $rules"
 done
-git -C /repo status --short
+git -C $REPO status --short
